@@ -191,13 +191,27 @@ func (s *JavaIdentifierListener) ExitInterfaceDeclaration(ctx *parser.InterfaceD
 }
 
 func (s *JavaIdentifierListener) EnterInterfaceMethodDeclaration(ctx *parser.InterfaceMethodDeclarationContext) {
+	enterInterfaceMethod(ctx, ctx.InterfaceCommonBodyDeclaration())
+}
+
+// `<T> T pick(T a);` is a rule of its own in the grammar, it does not contain an interfaceMethodDeclaration
+func (s *JavaIdentifierListener) EnterGenericInterfaceMethodDeclaration(ctx *parser.GenericInterfaceMethodDeclarationContext) {
+	enterInterfaceMethod(ctx, ctx.InterfaceCommonBodyDeclaration())
+}
+
+func (s *JavaIdentifierListener) ExitGenericInterfaceMethodDeclaration(ctx *parser.GenericInterfaceMethodDeclarationContext) {
+	currentNode.Functions = append(currentNode.Functions, currentMethod)
+	currentMethod = core_domain.NewJMethod()
+}
+
+func enterInterfaceMethod(ctx antlr.ParserRuleContext, body parser.IInterfaceCommonBodyDeclarationContext) {
 	startLine := ctx.GetStart().GetLine()
 	startLinePosition := ctx.GetStart().GetColumn()
 	stopLine := ctx.GetStop().GetLine()
 	stopLinePosition := ctx.GetStop().GetColumn()
-	name := ctx.InterfaceCommonBodyDeclaration().(*parser.InterfaceCommonBodyDeclarationContext).Identifier().GetText()
+	name := body.(*parser.InterfaceCommonBodyDeclarationContext).Identifier().GetText()
 	//XXX: find the start position of {, not public
-	typeType := ctx.InterfaceCommonBodyDeclaration().(*parser.InterfaceCommonBodyDeclarationContext).TypeTypeOrVoid().GetText()
+	typeType := body.(*parser.InterfaceCommonBodyDeclarationContext).TypeTypeOrVoid().GetText()
 
 	common_listener.BuildAnnotationsForMethod(ctx.GetParent().GetParent(), &currentMethod)
 
